@@ -217,43 +217,65 @@ func matchDiags(d diag.Diagnostics, exp []expDiag, exactCounts bool) string {
 	// gets one diagnostic of its own (Kuhn's algorithm), then the remaining diagnostics go to
 	// any expectation that still has capacity (one per reached site).
 	sort.SliceStable(e, func(i, j int) bool { return e[i].full != "" && e[j].full == "" })
-	owner := make([]int, len(details)) // detail -> expectation
-	for i := range owner {
-		owner[i] = -1
+	// slots: every expectation has max slots; slot 0 of each is mandatory (the diagnostic must be reported at least once)
+	type slot struct{ exp int }
+	var slots []slot
+	first := make([]int, len(e))
+	for x := range e {
+		first[x] = len(slots)
+		for k := 0; k < e[x].max; k++ {
+			slots = append(slots, slot{x})
+		}
 	}
-	var try func(x int, seen []bool) bool
-	try = func(x int, seen []bool) bool {
+	slotOwner := make([]int, len(slots)) // slot -> detail
+	for i := range slotOwner {
+		slotOwner[i] = -1
+	}
+	detailSlot := make([]int, len(details)) // detail -> slot
+	for i := range detailSlot {
+		detailSlot[i] = -1
+	}
+	// phase 1: maximum matching of the mandatory slots (augmenting from the slot side)
+	var fromSlot func(sl int, seen []bool) bool
+	fromSlot = func(sl int, seen []bool) bool {
 		for di, det := range details {
-			if seen[di] || !names(det, e[x]) {
+			if seen[di] || !names(det, e[slots[sl].exp]) {
 				continue
 			}
 			seen[di] = true
-			if owner[di] < 0 || try(owner[di], seen) {
-				owner[di] = x
+			if detailSlot[di] < 0 || fromSlot(detailSlot[di], seen) {
+				detailSlot[di], slotOwner[sl] = sl, di
 				return true
 			}
 		}
 		return false
 	}
 	for x := range e {
-		if try(x, make([]bool, len(details))) {
-			e[x].used = 1
-		}
+		fromSlot(first[x], make([]bool, len(details)))
 	}
-	for di, det := range details {
-		if owner[di] >= 0 {
-			continue
-		}
-		found := false
-		for i := range e {
-			if e[i].used < e[i].max && names(det, e[i]) {
-				e[i].used++
-				found = true
-				break
+	// phase 2: the remaining diagnostics go to any free slot; augmenting paths keep matched slots matched
+	var fromDetail func(di int, seen []bool) bool
+	fromDetail = func(di int, seen []bool) bool {
+		for sl := range slots {
+			if seen[sl] || !names(details[di], e[slots[sl].exp]) {
+				continue
+			}
+			seen[sl] = true
+			if slotOwner[sl] < 0 || fromDetail(slotOwner[sl], seen) {
+				slotOwner[sl], detailSlot[di] = di, sl
+				return true
 			}
 		}
-		if !found {
-			unmatched = append(unmatched, det)
+		return false
+	}
+	for di := range details {
+		if detailSlot[di] < 0 && !fromDetail(di, make([]bool, len(slots))) {
+			unmatched = append(unmatched, details[di])
+		}
+	}
+	for sl, d := range slotOwner {
+		if d >= 0 {
+			e[slots[sl].exp].used++
 		}
 	}
 	var missing []string
